@@ -21,9 +21,6 @@ case("F-C", "C09", "self-check-valid",
 case("F-C-mixed", "C09", "self-check-valid",
      "package src\n\ntype Num interface {\n\t~int\n\tString() string\n}\n\ntype Store[K Num] interface {\n\tGet(k K) bool\n}\n", cfg(["Store"]),
      note="self-check instantiates with int, which has no String method")
-case("F-F", "C12", "record-fields-distinct",
-     "package src\n\ntype Doer interface {\n\tDo(id int, Id string) error\n}\n", cfg(["Doer"]),
-     note="id and Id both give record field ID")
 case("F-N", "C16", "goimports-same-imports",
      "package src\n\nimport \"example.com/w/deps/zzz\"\n\ntype Doer interface {\n\tDo(v yaml.Node) error\n}\n", cfg(["Doer"], invoke="foreignabs"),
      extra={"deps/zzz/zzz.go": "package yaml\n\ntype Node struct{ A int }\n"},
